@@ -103,8 +103,18 @@ package ociauth
 //@   requires !s.unlimited
 //@   ensures result >= len(s.others)
 
+// Type invariant of Scope: its fields are unexported and every function of
+// the package that builds or changes a Scope value (the zero value,
+// UnlimitedScope, NewScope, ParseScope, Union, Canonical) is proved under C09
+// to return a well-formed one; so a Scope value that reaches the package from
+// outside (here: through a context) is well formed. Assumed, with this
+// argument, at the two places where scopes enter the auth transport.
 //@ func ScopeFromContext
 //@   modifies nothing
+//@   assume-return wf(result)
+//@ func RequestInfoFromContext
+//@   modifies nothing
+//@   assume-return wf(result.RequiredScope)
 
 //@ func ContextWithScope
 //@   modifies nothing
@@ -216,12 +226,16 @@ package ociauth
 //@ pure func isChallenge(h *authHeader) bool = h != nil && (h.scheme == "basic" || h.scheme == "bearer")
 //@ invariant (*registry) self.wwwAuthenticate != nil ==> isChallenge(self.wwwAuthenticate)
 //@ invariant (*registry) forall i int :: 0 <= i && i < len(self.accessTokens) ==> self.accessTokens[i] != nil
+// every cached token is filed under a well-formed scope (Contains is only
+// specified for well-formed operands)
+//@ invariant (*registry) forall i int :: 0 <= i && i < len(self.accessTokens) ==> wf(self.accessTokens[i].scope)
 //@ immutable scopedToken.scope, scopedToken.token, scopedToken.expires
 
 // Cache lookup: the token returned is a cached token whose scope contains the
 // scope asked for; none is returned only if no cached token's scope does.
 //@ func (*registry).accessTokenForScope
 //@   holds r.mu
+//@   requires wf(scope)
 //@   log
 //@   modifies nothing
 //@   loop 0 invariant forall j int :: 0 <= j && j <= rangeindex ==> !r.accessTokens[j].scope.Contains(scope)
@@ -246,7 +260,7 @@ package ociauth
 //@   holds r.mu
 //@   log
 //@   modifies ociauth.registry.accessTokens, ociauth.registry.refreshToken, url.URL.RawQuery
-//@   requires r.wwwAuthenticate != nil
+//@   requires r.wwwAuthenticate != nil && wf(requiredScope) && wf(wantScope)
 //@   ensures[recorded-under-the-scope-it-was-issued-for] result.1 == nil ==> len(r.accessTokens) == old(len(r.accessTokens)) + 1 &&
 //@     r.accessTokens[len(r.accessTokens) - 1].token == result.0 && result.0 != "" &&
 //@     ((calls == [r.acquireToken(ctx, requiredScope.Union(wantScope))] && r.accessTokens[len(r.accessTokens) - 1].scope == requiredScope.Union(wantScope)) ||
@@ -272,7 +286,7 @@ package ociauth
 //@ func (*registry).setAuthorization
 //@   private req
 //@   modifies ociauth.registry.accessTokens, ociauth.registry.refreshToken, url.URL.RawQuery, map:http.Header
-//@   requires req != nil && req.Header != nil
+//@   requires req != nil && req.Header != nil && wf(requiredScope) && wf(wantScope)
 //@   ensures[cached-token-goes-into-the-header] accessToken#0 != nil ==> result == nil &&
 //@     hdr(req.Header, "Authorization") == "Bearer " + accessToken#0.token
 //@   ensures[cached-token-is-sufficient] accessToken#0 != nil ==> accessToken#0.scope.Contains(requiredScope)
@@ -300,7 +314,7 @@ package ociauth
 //@ func (*registry).setAuthorizationFromChallenge
 //@   private req
 //@   modifies ociauth.registry.accessTokens, ociauth.registry.refreshToken, ociauth.registry.wwwAuthenticate, url.URL.RawQuery, map:http.Header
-//@   requires req != nil && req.Header != nil && challenge != nil && isChallenge(challenge)
+//@   requires req != nil && req.Header != nil && challenge != nil && isChallenge(challenge) && wf(requiredScope) && wf(wantScope)
 //@   ensures[challenge-remembered] r.wwwAuthenticate == challenge
 //@   ensures[bearer-answered-with-a-token-for-the-challenge-scope] old(challenge.scheme) == "bearer" ==>
 //@     calls == [r.acquireAccessToken(ctx, ParseScope(old(challenge.params["scope"])), wantScope.Union(requiredScope))] &&
@@ -418,16 +432,37 @@ package ociauth
 //@     built(buf) == old(built(buf)) + (old(built(buf)) != "" ? " " : "") + s.ResourceType +
 //@       ((s.Resource != "" || s.Action != "") ? ":" + s.Resource + ":" + s.Action : "")
 
-// Union: the part of its contract that discharges within the quick budget
-// (the full representation-level contract that was attempted is kept, not
-// claimed, in /verif/attempted/ociauth_Union.txt).
+// ParseScope: whatever the text, the result is a well-formed scope that keeps
+// the text it was parsed from (the splitting of the text into elements is not
+// under contract: strings.Fields / strings.Split are unspecified here).
+//@ func ParseScope
+//@   strings atom
+//@   bytes bv
+//@   ensures[well-formed-and-keeps-its-text] wf(result) && result.original == s
+
+// Union: the result is well formed (so it can be an operand of Contains, Holds
+// and Union again), the unlimited flag is the disjunction of the operands'
+// flags, and the receiver's text is kept when nothing was added. That the
+// result holds exactly the elements of both operands (covers-both,
+// nothing-extra) was attempted and is NOT claimed: with the old-side frame
+// axioms of `append-frames` the merge loops' invariants go through, but the
+// obligations after the two tail appends (append(r.x, s.x[i:]...)) stay
+// unknown (/verif/attempted/ociauth_Union.txt).
 //@ func (Scope).Union
 //@   strings atom
 //@   bytes bv
 //@   requires wf(s1) && wf(s2)
-//@   ensures[unlimited-absorbs] s1.unlimited || s2.unlimited ==> result.unlimited
+//@   append-frames
 //@   ensures[limited-stays-limited] !s1.unlimited && !s2.unlimited ==> !result.unlimited
 //@   ensures[nothing-added-returns-the-receiver-as-is] !s1.unlimited && !s2.unlimited && ((len(s2.repositories) == 0 && len(s2.others) == 0) || s1.Equal(s2)) ==> result == s1
 //@   ensures[same-set-keeps-the-receiver-text] !s1.unlimited && !s2.unlimited && result.Equal(s1) ==> result == s1
+//@   ensures[unlimited-absorbs] s1.unlimited || s2.unlimited ==> result.unlimited
+//@   ensures[well-formed] wf(result)
 //@   loop 0 invariant 0 <= i1 && i1 <= len(s1.repositories) && 0 <= i2 && i2 <= len(s2.repositories) && !r.unlimited && len(r.others) == 0
+//@   loop 0 invariant wfRepos(r)
+//@   loop 0 invariant forall k int :: 0 <= k && k < len(r.repositories) ==>
+//@     (i1 < len(s1.repositories) ==> r.repositories[k] < s1.repositories[i1]) && (i2 < len(s2.repositories) ==> r.repositories[k] < s2.repositories[i2])
 //@   loop 1 invariant 0 <= i1 && i1 <= len(s1.others) && 0 <= i2 && i2 <= len(s2.others) && !r.unlimited
+//@   loop 1 invariant wfRepos(r) && wfOthers(r)
+//@   loop 1 invariant forall k int :: 0 <= k && k < len(r.others) ==>
+//@     (i1 < len(s1.others) ==> lessRS(r.others[k], s1.others[i1])) && (i2 < len(s2.others) ==> lessRS(r.others[k], s2.others[i2]))
